@@ -25,10 +25,17 @@ RULE = ("(a) events.get_key on the decoder's complete one-step tree: every pendi
         "(e) could_be_unfinished_utf8 / _char on every first byte x lengths 0..7. non-trivial = at least one byte; "
         "distinct = distinct (kind, encoding, bytes/tokens)")
 GENERATORS = ("gen/gen_pure.py",)
-PURE_HELPERS = ('could_be_unfinished_utf8',)
+PURE_HELPERS = ('could_be_unfinished_utf8', 'decodable', '_key_name', 'could_be_unfinished_char', 'get_key')
 TRUSTED = [
-    "translator gen/gen_pure.py (dumps the Python AST of could_be_unfinished_utf8 node by node into coq/Gen/Pure.v) and the reference "
-    "semantics of that Python subset coq/Spec/PyMini.v, itself run against CPython on enumerated arguments in every check",
+    "translator gen/gen_pure.py (dumps the Python AST of get_key, _key_name, decodable, could_be_unfinished_char, "
+    "could_be_unfinished_utf8 node by node into coq/Gen/Pure.v; checks that every free name of them is a translated function, "
+    "a generated table, Keynames, codecs or an unshadowed builtin) and the reference semantics of that Python subset "
+    "coq/Spec/PyMini.v, itself run against CPython (the real functions) on enumerated arguments in every check",
+    "module context coq/Spec/PyEnv.v: globals built from Gen/Tables.v; calls between the five functions run the callee's own "
+    "generated tree (nothing assumed); ORACLES (assumed, validated against CPython in every check): bytes.decode(name) = "
+    "Model/Utf8.decode for the names of the alias table (utf-8, utf8, UTF-8, ascii, us-ascii, latin-1, latin1, iso-8859-1), "
+    "codecs.getdecoder(a) is codecs.getdecoder(b) iff a and b name the same codec; exception messages are not modelled; "
+    "python without -O (assert is executed)",
     "Coq 8.16.1 kernel incl. vm_compute (no native_compute); Print Assumptions: closed under the global context",
     "translator gen/gen_tables.py (CURTSIES_NAMES, CURSES_NAMES, KEYMAP_PREFIXES, MAX_KEYPRESS_SIZE of the live modules)",
     "reference notions coq/Spec/KeySpec.v (growable = proper prefix of an ESC-initiated table sequence, name_ok, prop_ok, stream_ok)",
@@ -86,7 +93,12 @@ def decode_stream(enc, mode, buf):
     saved = cinput.getpreferredencoding
     cinput.getpreferredencoding = lambda: enc
     try:
-        inp.unget_bytes(bytes(buf))
+        if len(buf) >= 2 and (len(buf) + buf[0]) % 2:
+            # handed back in two pieces: what is handed back later was read later and comes out later
+            inp.unget_bytes(bytes(buf[:len(buf) // 2]))
+            inp.unget_bytes(bytes(buf[len(buf) // 2:]))
+        else:
+            inp.unget_bytes(bytes(buf))
         keys = []
         try:
             while inp.unprocessed_bytes:
